@@ -134,8 +134,8 @@ def dyn_c02(info):
 
 PROPS = {
     "C02": {
-        "proofs": ["ZlProofs.Props.C02"],
-        "corr": ["walkers", "framework"],  # framework: cert_recovered_iff / unrecovered_panic_iff are theorems about the framework model
+        "proofs": ["ZlProofs.Props.C02", "ZlProofs.Props.Bodies"],  # Bodies: translated_rules_never_panic over the regenerated rule terms
+        "corr": ["walkers", "framework", "bodies"],  # framework: cert_recovered_iff / unrecovered_panic_iff are theorems about the framework model
         "search": [("sweep", "C02")],
         "obligations": [ob_c02_sites],
         "dyn_search": dyn_c02,
@@ -170,8 +170,8 @@ PROPS = {
         "assumptions": ["the scope predicates are modelled over a parsed view (EKU OIDs, policy OIDs, rfc822 names, otherNames)"],
     },
     "C05": {
-        "proofs": ["ZlProofs.Props.C05"],
-        "corr": [],
+        "proofs": ["ZlProofs.Props.C05", "ZlProofs.Props.Bodies"],  # Bodies: the translated rules are functions of the view (no state to remember, nothing to write)
+        "corr": ["bodies"],
         "search": ["c05"],
         "trusted_base": TB_COMMON + ["the SSA footprint analysis of extract/funcs.go (stores through object-rooted addresses incl. append aliasing and re-slices, stores to package-level variables, calls leaving the module, map-range sites)",
                                      "the hand-written allow-lists in ZlProofs/Props/C05.lean (pure packages, function-level rules, documented clock/file sites, reviewed map ranges and appends) are part of the specification"],
@@ -180,8 +180,8 @@ PROPS = {
         "partial": "that the SSA footprint over-approximates the Go code's effects (reflection, unsafe, library internals) is trusted and cross-checked dynamically, not proved",
     },
     "C09": {
-        "proofs": ["ZlProofs.Props.C09"],
-        "corr": ["der", "framework"],  # runAll_congr is about the framework model: results carry what the stages return, nothing derived from the object
+        "proofs": ["ZlProofs.Props.C09", "ZlProofs.Props.Bodies"],  # Bodies: no_signature_field / all_rules_fields_allowed
+        "corr": ["der", "framework", "bodies"],  # runAll_congr is about the framework model: results carry what the stages return, nothing derived from the object
         "search": ["c09"],
         "trusted_base": TB_COMMON,
         "assumptions": ["A-SELF: the parser sets SelfSigned only when issuer bytes = subject bytes (checked on every object)",
@@ -208,8 +208,8 @@ PROPS = {
         "partial": "go-toml itself is not modelled beyond the typed-field abstraction; global sections have no fields in this code base",
     },
     "C06": {
-        "proofs": ["ZlProofs.Props.C06"],
-        "corr": ["framework"],  # framework_adds_only is a theorem about the framework model: NA, NE and fatal are all the wrapper adds
+        "proofs": ["ZlProofs.Props.C06", "ZlProofs.Props.Bodies"],  # Bodies: translated_rules_severity, on the rule terms rather than on extracted status sets
+        "corr": ["framework", "bodies"],  # framework_adds_only is a theorem about the framework model: NA, NE and fatal are all the wrapper adds
         "search": [("sweep", "C06")],
         "dyn_search": dyn_c06,
         "post": [post_observed_statuses],
@@ -281,8 +281,8 @@ PROPS = {
                         "networks are CIDR networks in canonical form (no host bits in the base address), contiguous masks"],
     },
     "C17": {
-        "proofs": ["ZlProofs.Props.C17"],
-        "corr": ["names"],
+        "proofs": ["ZlProofs.Props.C17", "ZlProofs.Props.Bodies"],  # Bodies: run_similar (order independence of every translated rule)
+        "corr": ["names", "bodies"],
         "search": ["c17"],
         "trusted_base": TB_COMMON + ["the hand-written scan classification of list-reading lints in ZlProofs/Props/C17.lean (part of the specification; totality against the extracted readers is a kernel-checked obligation)",
                                      "the extractor's loop-status facts (which statuses a lint can return from inside a range loop)"],
@@ -320,8 +320,8 @@ CLAIMS = {
             "text": "scope_gate, inapplicable_NA, execute_only_after_applies, verdict_stands, body_panic_fatal, config_error_fatal hold for every lint, object and configuration; the three scope predicates are modelled over a parsed view and compared with util.IsServerAuthCert / IsEmailProtectionCert / IsCodeSigning through the framework on a grid of EKU / policy / SAN shapes, including re-linting the same object pointer after in-place edits; every real lint is compared with a direct CheckApplies/Execute call on a fresh configured instance.",
             "note": "Trusted: harness; the view abstraction of a certificate."},
     "C05": {
-        "proofs": ["ZlProofs.Props.C05"],
-        "corr": [],
+        "proofs": ["ZlProofs.Props.C05", "ZlProofs.Props.Bodies"],  # Bodies: the translated rules are functions of the view (no state to remember, nothing to write)
+        "corr": ["bodies"],
         "search": ["c05"],
         "trusted_base": TB_COMMON + ["the SSA footprint analysis of extract/funcs.go (stores through object-rooted addresses incl. append aliasing and re-slices, stores to package-level variables, calls leaving the module, map-range sites)",
                                      "the hand-written allow-lists in ZlProofs/Props/C05.lean (pure packages, function-level rules, documented clock/file sites, reviewed map ranges and appends) are part of the specification"],
@@ -330,8 +330,8 @@ CLAIMS = {
         "partial": "that the SSA footprint over-approximates the Go code's effects (reflection, unsafe, library internals) is trusted and cross-checked dynamically, not proved",
     },
     "C09": {
-        "proofs": ["ZlProofs.Props.C09"],
-        "corr": ["der", "framework"],  # runAll_congr is about the framework model: results carry what the stages return, nothing derived from the object
+        "proofs": ["ZlProofs.Props.C09", "ZlProofs.Props.Bodies"],  # Bodies: no_signature_field / all_rules_fields_allowed
+        "corr": ["der", "framework", "bodies"],  # runAll_congr is about the framework model: results carry what the stages return, nothing derived from the object
         "search": ["c09"],
         "trusted_base": TB_COMMON,
         "assumptions": ["A-SELF: the parser sets SelfSigned only when issuer bytes = subject bytes (checked on every object)",
